@@ -245,7 +245,7 @@ func H_conc_w() {
 			// C14: the bytes do not depend on the concurrency level or the schedule
 			vfAssert("cdet-bytes-equal-sequential", vfEqBytes(sink.buf, seq.buf))
 			// C02 with a concurrent Writer: the real Reader gives the input back
-			back, fin := hConcDrain(NewReader(&hSource{data: sink.buf, failAt: -1}), 1)
+			back, fin := hConcDrain(NewReader(&hSource{data: sink.buf, failAt: -1}), 1, -1)
 			vfAssert("rt-clean-end", fin == io.EOF)
 			vfAssert("rt-output-equals-input", vfEqBytes(back, r.want))
 		}
@@ -304,10 +304,10 @@ func hConcFrame(k, bc, cc, legacy int) (frame []byte, content []byte) {
 }
 
 // hConcDrain reads zr to its end with the given mode; final is io.EOF for a clean end.
-func hConcDrain(zr *Reader, mode int) (out []byte, final error) {
+func hConcDrain(zr *Reader, mode int, wfail int) (out []byte, final error) {
 	if mode == 2 {
 		var w hSink
-		w.failAt = -1
+		w.failAt = wfail
 		_, final = zr.WriteTo(&w)
 		out = w.buf
 		if final == nil {
@@ -365,11 +365,20 @@ func H_conc_r() {
 		opts = append(opts, OnBlockDoneOption(cnt.done))
 	}
 	vfAssume(zr.Apply(opts...) == nil)
-	out, final := hConcDrain(zr, mode)
+	wfail := vfParam("wfail") // WriteTo only: the destination fails at this call (-1 never)
+	out, final := hConcDrain(zr, mode, wfail)
+	if wfail >= 0 && mode == 2 {
+		// a failing destination is neither the end of the stream nor a source or decoding error:
+		// the pipeline may still be there; what matters is that Reset and reuse work (below)
+		vfAssert("conc-r-delivered-prefix", hIsPrefix(out, content))
+		goto reuse
+	}
 	// the end of the stream or an error has been reported: the pipeline is gone
 	cnt.snapshot(true)
-	left := vfSettle()
-	vfAssert("conc-r-no-goroutine-leak", left == 0)
+	{
+		left := vfSettle()
+		vfAssert("conc-r-no-goroutine-leak", left == 0)
+	}
 	if useHandler {
 		_, late := cnt.snapshot(false)
 		vfAssert("conc-r-no-callback-after-end", late == 0)
@@ -401,11 +410,12 @@ func H_conc_r() {
 			hAcceptOracle(stream[:src.pos], out)
 		}
 	}
+reuse:
 	if reuse {
 		// Reset onto an intact frame: the Reader works again, in order, and ends cleanly
 		src2 := &hSource{data: frame, failAt: -1}
 		zr.Reset(src2)
-		out2, final2 := hConcDrain(zr, mode)
+		out2, final2 := hConcDrain(zr, mode, -1)
 		vfAssert("conc-r-reuse-clean-end", final2 == io.EOF)
 		vfAssert("conc-r-reuse-blocks-in-order", vfEqBytes(out2, content))
 		vfAssert("conc-r-reuse-no-goroutine-leak", vfSettle() == 0)
